@@ -64,6 +64,9 @@ func genC01(seed uint64, tier string) C01Cfg {
 	if r.Bool(0.5) {
 		c.Deploy.IDs, c.Part, c.Deploy.PickFixed = sparseMembership(r, n, c.Deploy.Silent, c.Deploy.PickUnsorted)
 	}
+	if rd := prng.Derive(seed, "real-init-delay"); rd.Bool(0.2) {
+		c.Deploy.RealInitDelayMs = rd.Range(1, 40)
+	}
 	return c
 }
 
